@@ -741,6 +741,7 @@ class Sym:
                 stack.append((t['target'], p))
             elif k == 'switch':
                 d = self.op_term(p, t['discr'])
+                dty = t['discr']['place']['ty'] if t['discr']['k'] in ('copy', 'move') else t['discr'].get('ty')
                 vals = [v for v, _ in t['arms']]
                 known = term_int(d)
                 for v, tb in t['arms']:
@@ -748,13 +749,13 @@ class Sym:
                         continue
                     q = p.clone()
                     if known is None:
-                        q.conds.append((d, v, b))
+                        q.conds.append((d, v, b, dty))
                     stack.append((tb, q))
                 if known is None or known not in vals:
                     if body.blocks[t['otherwise']]['term']['k'] != 'unreachable':
                         q = p.clone()
                         if known is None:
-                            q.conds.append((d, ('not', tuple(vals)), b))
+                            q.conds.append((d, ('not', tuple(vals)), b, dty))
                         stack.append((t['otherwise'], q))
             elif k == 'call':
                 c = callee(t)
@@ -1053,6 +1054,10 @@ def literal(cond):
         if kind == 'ne':
             return ('eq', a, b, not truth)
         return (kind, a, b, truth)
+    cty = cond[3] if len(cond) > 3 else None
+    if kind is None and t[0] != 'discr' and cty is not None and cty != 'bool' and not neg:
+        # switch over an integer value (match on a number)
+        return ('int', strip_transparent(t), ('not', excluded) if excluded is not None else v, True)
     if t[0] == 'discr':
         # variant test: value is the discriminant
         if excluded is not None:
